@@ -190,6 +190,9 @@ const WEIRD: &[&str] = &[
     "the \"fast\" solver",
     "tab\there",
     "q'uote",
+    "𝄞 clef €",
+    "unnamed_system_1",
+    "a-very-long-name/0123456789 0123456789 0123456789 0123456789 0123456789 0123456789 0123456789 0123456789 0123456789 0123456789 0123456789 0123456789 0123456789 0123456789 0123456789 0123456789 0123456789 0123456789 0123456789 0123456789 0123456789 0123456789 0123456789 end",
 ];
 
 /// A different name that becomes equal to `name` once ' ', '-', '/' are replaced by '_'
@@ -331,6 +334,15 @@ pub fn gen_prog(rng: &mut StdRng, cfg: &GenCfg, depth: usize, prefix: &str) -> P
                 r.push(res);
             }
         }
+        if rng.gen_bool(0.02) {
+            // a wide access set: more ids than the planner's inline buffers hold (12 reads / 10 writes)
+            let nr = *[0usize, 11, 13, 17, 33, 40].choose(rng).unwrap();
+            let nw = *[0usize, 0, 9, 11, 12, 21].choose(rng).unwrap();
+            let mut pool: Vec<Res> = (201..=270).collect();
+            pool.shuffle(rng);
+            r.extend(pool[..nr].iter().copied());
+            w.extend(pool[nr..nr + nw].iter().copied());
+        }
         if rng.gen_bool(0.08) {
             let x = *[CTL_A, CTL_B].choose(rng).unwrap();
             if rng.gen_bool(0.5) {
@@ -389,7 +401,8 @@ pub fn gen_prog(rng: &mut StdRng, cfg: &GenCfg, depth: usize, prefix: &str) -> P
         // deps
         let mut deps: Vec<String> = Vec::new();
         if !names.is_empty() && rng.gen_bool(cfg.p_dep) {
-            let nd = rng.gen_range(1..=cfg.max_deps);
+            // (now and then more dependencies than the planner's inline buffer of 4 holds)
+            let nd = if names.len() >= 6 && rng.gen_bool(0.08) { rng.gen_range(5..=8) } else { rng.gen_range(1..=cfg.max_deps) };
             for _ in 0..nd {
                 if !deps.is_empty() && rng.gen_bool(cfg.p_dup_dep) {
                     let d = deps.choose(rng).unwrap().clone();
